@@ -2,7 +2,7 @@
    TCPProxy/UDPProxy/TCPGroupCtl objects over real managers (driver `pxy`) and of an in-process
    frps (driver `portsys`) against Model/Ports.v and Model/PortSrv.v, plus the property monitors
    evaluated on the observed traces themselves. *)
-From FRP Require Export Corr.Common Model.Ports Model.PortSrv.
+From FRP Require Export Corr.Common Model.Ports Model.PortSrv Model.PortSched.
 Open Scope Z_scope.
 
 (* ---------- shared comparisons (Go maps are unordered: everything is compared as a set) ---------- *)
@@ -395,10 +395,53 @@ Definition ysteps_code (cfg : xcfg) (maxp : Z) (steps : list ystep) : Z :=
 
 Definition ysteps_branches (cfg : xcfg) (maxp : Z) (steps : list ystep) : list Z := ysteps_br maxp (srv_new cfg) [] steps.
 
+(* ---------- driver `sched`: interleavings replayed on the real frps through the gates ---------- *)
+(* the schedule as the harness realised it: (t, n) with t >= 1 = thread t takes n atomic steps,
+   (-1, p) = a squatter binds p, (-2, p) = the squatter lets go of p *)
+Fixpoint sched_expand (l : list (Z * Z)) : list sched_el :=
+  match l with
+  | [] => []
+  | (t, n) :: r =>
+      (if t =? -1 then [SchSquat n] else if t =? -2 then [SchUnsquat n] else repeat (SchThread t) (Z.to_nat n))
+      ++ sched_expand r
+  end.
+
+(* observed: NewProxyResp of every thread, the tcp manager's tables and the bind scan at the end *)
+Record sobs := { so_res : list (Z * Z); so_snap : snap; so_bound : list Z }.
+
+Definition th_finished (th : sthread) : bool :=
+  match st_pc th with PEnd => true | PLive _ => negb (st_close th) | _ => false end.
+
+Definition sched_code (ranges : list prange) (ths : list (Z * sthread)) (sched : list (Z * Z)) (ob : sobs) : Z :=
+  (* the property on the observed end state itself: what the books call used is what is bound *)
+  if negb (zset_eq (snap_used_ports (so_snap ob)) (so_bound ob)) then 41 else
+  match ss_run (sched_expand sched) (ss_init ranges ths) with
+  | None => 2
+  | Some s =>
+      if negb (forallb (fun e => th_finished (snd e)) (ss_ths s)) then 7
+      else if negb (forallb (fun e : Z * Z => match aget (fst e) (ss_ths s) with
+                                              | Some th => st_res th =? snd e | None => false end) (so_res ob)) then 3
+      else let c := snap_code (so_snap ob) (ss_pm s) in
+           if negb (c =? 0) then c
+           else if negb (zset_eq (so_bound ob) (ss_bound s)) then 8 else 0
+  end.
+
+(* 61 a thread registered, 62 its listen failed after a successful Acquire, 63 refused: port already used,
+   64 refused: name exists (before Run, or by Add after Run), 65 other refusals *)
+Definition sched_branches (ranges : list prange) (ths : list (Z * sthread)) (sched : list (Z * Z)) : list Z :=
+  match ss_run (sched_expand sched) (ss_init ranges ths) with
+  | None => []
+  | Some s => map (fun e : Z * sthread =>
+                     let r := st_res (snd e) in
+                     if 0 <=? r then 61 else if r =? -5 then 62 else if r =? -1 then 63 else if r =? -11 then 64 else 65)
+                  (ss_ths s)
+  end.
+
 Inductive case :=
 | CPorts (ranges : list prange) (init : snap) (steps : list mstep)
 | CPxy (cfg : xcfg) (steps : list xstep)
-| CSys (cfg : xcfg) (maxp : Z) (steps : list ystep).
+| CSys (cfg : xcfg) (maxp : Z) (steps : list ystep)
+| CSched (ranges : list prange) (ths : list (Z * sthread)) (sched : list (Z * Z)) (ob : sobs).
 
 Definition check_case (c : case) : Z :=
   match c with
@@ -412,6 +455,7 @@ Definition check_case (c : case) : Z :=
            if negb (m =? 0) then m else msteps_code 1 s0 steps
   | CPxy cfg steps => xsteps_code cfg steps
   | CSys cfg maxp steps => ysteps_code cfg maxp steps
+  | CSched ranges ths sched ob => sched_code ranges ths sched ob
   end.
 
 Definition case_branches (c : case) : list Z :=
@@ -419,6 +463,7 @@ Definition case_branches (c : case) : list Z :=
   | CPorts ranges _ steps => msteps_branches (pm_new ranges) steps
   | CPxy cfg steps => xsteps_branches cfg steps
   | CSys cfg maxp steps => ysteps_branches cfg maxp steps
+  | CSched ranges ths sched _ => sched_branches ranges ths sched
   end.
 
 Definition count_branch (k : Z) (cs : list case) : Z :=
